@@ -52,6 +52,13 @@ def join_fields(src):
     return {'%s_%s' % (src, a): {'name': src, 'aggregate': a} for a in AGGS}
 
 
+@core.builder('c02_set_type_transform')
+def _b_stt(step, env):
+    # a pattern that matches a field of res_1 only (n) and a field of res_2 only (n2), with a transform, on all resources
+    return core.dataflows.set_type('(n|n2)', type='number', resources=None,
+                                   transform=lambda v: v)
+
+
 @core.builder('c02_iter')
 def _b_iter(step, env):
     return [{'i': 7, 'when': datetime.datetime(2021, 5, 6, 7, 8, 9), 'tags': ['a']}, {'i': None, 'when': None, 'tags': []}]
@@ -79,6 +86,9 @@ SYMS = {
     'set_type_duration': S('set_type', 'dur', type='duration', resources='res_1'),
     'set_type_geopoint': S('set_type', 'gp', type='geopoint', resources='res_1'),
     'set_type_any': S('set_type', 'm', type='any', resources=None),
+    'set_type_transform_multi': {'op': 'c02_set_type_transform'},
+    'rename_swap': S('rename_fields', {'arr': 'obj', 'obj': 'arr'}, resources='res_1'),
+    'rename_chain': S('rename_fields', {'b': 'dt', 'dt': 'spare'}, resources='res_1'),
     'validate': S('validate'),
     'unpivot_num': S('unpivot', [{'name': 'm', 'keys': {'what': 'm'}}, {'name': 'n', 'keys': {'what': 'n'}}],
                      [{'name': 'what', 'type': 'string'}], {'name': 'val', 'type': 'number'}, resources='res_1'),
